@@ -1122,6 +1122,23 @@ class C20(Base):
                  "file_style": rng.choice(["lf", "lf", "crlf", "no-final-newline", "blank-line"]),
                  "mode": mode if mode != "both" else "list", "list_flag_both": mode == "both", "json": rng.random() < 0.4}
             yield self.mk_case(m, "cli")
+        # targets that come from the config file only, in every line-ending style and every mode
+        sp = gen.Spelling(self.DEF["ds"], self.DEF["de"], self.DEF["tl"], self.DEF["rm"])
+        for style in ["lf", "crlf", "no-final-newline", "blank-line"]:
+            for mode, js in [("clean", False), ("list", False), ("list", True), ("list_all", False), ("list_all", True)]:
+                pool = ["a", "b", "c d", "vec![]", "b "]
+                rng.shuffle(pool)
+                infile = pool[:rng.randint(1, 3)]
+                lines = []
+                for nm in pool:
+                    e = gen.El("rm", True)
+                    e.name = nm
+                    lines.append(rng.choice(["", "  "]) + sp.open_tag(e) + rng.choice(["x", "\ny\n"]) + sp.close_tag(e))
+                    lines.append(rng.choice(["k", "", "  z"]))
+                m = {"src": "\n".join(lines) + "\n", "ds": self.DEF["ds"], "de": self.DEF["de"], "tl": self.DEF["tl"], "rm": self.DEF["rm"],
+                     "off": self.DEF["off"], "now": gen.NOW, "flags": [], "file": infile, "file_style": style,
+                     "mode": mode, "list_flag_both": False, "json": js}
+                yield self.mk_case(m, "cli-config-file")
         # the empty document and documents of white space only, through every mode and route
         for src in ["", "\n", " ", "\n\n"]:
             for mode, js in [("clean", False), ("list", False), ("list", True), ("list_all", False), ("list_all", True)]:
